@@ -245,10 +245,15 @@ def write_evidence(prop, tier, verif_seed, level, coverage, wall_s, violations, 
     return path
 
 
-def sample_of(out):
+def sample_of(out, max_ops=24):
     h = out['hist']
-    return {'run_index': out['index'], 'run_seed': out['seed'], 'world': h['world'], 'ops': h['ops'],
-            'resolved_faults': out.get('faults')}
+    ops = h['ops']
+    faults = out.get('faults')
+    s = {'run_index': out['index'], 'run_seed': out['seed'], 'kind': (h.get('meta') or {}), 'world': h['world'],
+         'n_ops': len(ops), 'ops': ops[:max_ops], 'resolved_faults': (faults[:max_ops] if faults else faults)}
+    if len(ops) > max_ops:
+        s['note'] = 'history truncated for the evidence file: first %d of %d ops shown' % (max_ops, len(ops))
+    return s
 
 
 # ---------------------------------------------------------------------------
